@@ -1,6 +1,7 @@
 package keeper
 
 import (
+	banktypes "github.com/cosmos/cosmos-sdk/x/bank/types"
 	"math/big"
 
 	sdkmath "cosmossdk.io/math"
@@ -148,4 +149,58 @@ func VerifC08ConvertStep() {
 		rt.Assert(supplyTok.Equal(tokA.Add(tokB).Add(coinA).Add(coinB)), "token total supply unchanged")
 	}
 	rt.Assert(supplyTok.Equal(tA.Add(tB).Add(sdkmath.NewIntFromBigInt(e.tok.BalanceOf(verifContract, moduleHex)))), "token balances sum to total supply")
+}
+
+// VerifC08AliasIndex: one UpdateDenomAliases on a state with two registered coins (usdt with
+// aliases a1, a2; fxusd with alias b1) whose alias index and bank metadata agree. Afterwards they
+// still agree: an alias is in the index under a coin exactly when that coin's metadata lists it;
+// a refused update changes nothing; the token-pair indexes are untouched.
+func VerifC08AliasIndex() {
+	e := verifNewErc20Env()
+	coins := map[string][]string{"usdt": {"a1", "a2"}, "fxusd": {"b1"}}
+	for _, d := range []string{"usdt", "fxusd"} {
+		e.bank.SetDenomMetaData(e.ctx, banktypes.Metadata{Base: d, Display: d, Name: d, Symbol: d,
+			DenomUnits: []*banktypes.DenomUnit{{Denom: d, Exponent: 0, Aliases: append([]string(nil), coins[d]...)}}})
+		e.k.SetAliasesDenom(e.ctx, d, coins[d]...)
+	}
+	e.k.AddTokenPair(e.ctx, types.TokenPair{Erc20Address: verifContract.Hex(), Denom: "usdt", Enabled: true, ContractOwner: types.OWNER_MODULE})
+	e.k.AddTokenPair(e.ctx, types.TokenPair{Erc20Address: "0x00000000000000000000000000000000000000C2", Denom: "fxusd", Enabled: true, ContractOwner: types.OWNER_MODULE})
+	denom := []string{"usdt", "fxusd", "nocoin"}[rt.Choose("denom", 3)]
+	universe := []string{"a1", "a2", "b1", "c1", "usdt"}
+	alias := universe[rt.Choose("alias", len(universe))]
+	rt.Cover("state-built")
+	before := e.ms.Snapshot()
+	_, err := e.k.UpdateDenomAliases(e.ctx, denom, alias)
+	if err != nil {
+		rt.Cover("refused")
+		rt.Assert(e.ms.Equal(before), "a refused alias update changes nothing")
+	} else {
+		rt.Cover("updated")
+	}
+	for _, x := range universe {
+		idx, inIndex := e.k.GetAliasDenom(e.ctx, x)
+		listed := ""
+		for _, d := range []string{"usdt", "fxusd"} {
+			md, ok := e.bank.GetDenomMetaData(e.ctx, d)
+			if !ok || len(md.DenomUnits) == 0 {
+				rt.Assert(false, "registered coins keep their metadata")
+				continue
+			}
+			n := 0
+			for _, a := range md.DenomUnits[0].Aliases {
+				if a == x {
+					n++
+				}
+			}
+			rt.Assert(n <= 1, "no alias is listed twice")
+			if n > 0 {
+				rt.Assert(listed == "", "no alias is listed under two coins")
+				listed = d
+			}
+		}
+		rt.Assert(inIndex == (listed != "") && (!inIndex || idx == listed), "alias index and metadata describe the same aliases")
+	}
+	p1, ok1 := e.k.GetTokenPair(e.ctx, "usdt")
+	p2, ok2 := e.k.GetTokenPair(e.ctx, verifContract.Hex())
+	rt.Assert(ok1 && ok2 && p1.Erc20Address == p2.Erc20Address && p1.Denom == "usdt" && p2.Denom == "usdt", "denomination and contract indexes still describe the same pair")
 }
